@@ -1942,7 +1942,7 @@ fn run_family(t: &mut Trace, base: &Plan, tag: &str, max_cuts: usize, rng: &mut 
         all.truncate(k);
         all
     };
-    let (k1, k2) = if base.big { (1, 1) } else { (2, 3) };
+    let (k1, k2) = if base.big { (1, 1) } else { (1, 2) };
     for n in pick(cnt.nid1, k1, rng) {
         let mut p = base.clone();
         p.end = format!("idfail {}", n);
